@@ -7,6 +7,7 @@ import (
 	"io"
 	"net"
 	"syscall"
+	"time"
 
 	"github.com/google/gopacket"
 )
@@ -94,6 +95,7 @@ func (r *c20Reader) ReadPacketData() ([]byte, *gopacket.CaptureInfo, error) {
 
 type c20Proc struct {
 	rd       *c20Reader
+	kinds    bool // processor errors of solver-chosen kinds
 	seen     []int
 	procErrs []error
 }
@@ -103,7 +105,29 @@ func (p *c20Proc) ProcessPacketData(data []byte, ci *gopacket.CaptureInfo) error
 	i := int(data[0])
 	p.seen = append(p.seen, i)
 	if p.rd.classes[i] == c20FrameProcErr {
-		e := &c20Err{1000 + i}
+		// the processor's own error may look like any read fault: it is still a processing error
+		var e error = &c20Err{1000 + i}
+		if p.kinds {
+			k := ndU8("procErrKind")
+			verifAssume(k < 8)
+			switch verifConcretize(uint64(k)) {
+			case 1:
+				e = syscall.EAGAIN
+			case 2:
+				e = c20TimeoutErr{}
+			case 3:
+				e = &net.OpError{Op: "read", Err: syscall.ECONNRESET}
+			case 4:
+				e = io.EOF
+			case 5:
+				e = io.ErrUnexpectedEOF
+			case 6:
+				e = errors.New("read packet: use of closed file")
+			case 7:
+				e = syscall.EBADF
+			}
+			verifCover("proc-kind")
+		}
 		p.procErrs = append(p.procErrs, e)
 		return e
 	}
@@ -114,7 +138,7 @@ func (p *c20Proc) ProcessPacketData(data []byte, ci *gopacket.CaptureInfo) error
 func VerifH_C20_faults() {
 	K := verifParam("K", 3)
 	rd := &c20Reader{K: K, cancelAt: -1}
-	pr := &c20Proc{rd: rd}
+	pr := &c20Proc{rd: rd, kinds: verifParam("KINDS", 0) == 1}
 	ctx, cancel := context.WithCancel(context.Background())
 	defer cancel()
 	rd.cancel = cancel
@@ -221,4 +245,61 @@ func VerifH_C20_cancel() {
 			verifAssert(got[i] == wantErrs[i], "reported error is not the one that occurred / wrong order")
 		}
 	}
+}
+
+// c20BurstReader delivers K frames, then EOF.
+type c20BurstReader struct{ K, calls int }
+
+func (r *c20BurstReader) ReadPacketData() ([]byte, *gopacket.CaptureInfo, error) {
+	i := r.calls
+	r.calls++
+	if i >= r.K {
+		return nil, nil, io.EOF
+	}
+	return []byte{byte(i), byte(i >> 8)}, &gopacket.CaptureInfo{}, nil
+}
+
+type c20BurstProc struct {
+	fail []bool
+	seen int
+}
+
+func (p *c20BurstProc) ProcessPacketData(data []byte, ci *gopacket.CaptureInfo) error {
+	i := int(data[0]) | int(data[1])<<8
+	verifAssert(i == p.seen, "frames processed out of order or twice")
+	p.seen++
+	if p.fail[i] {
+		return &c20Err{i}
+	}
+	return nil
+}
+
+// VerifH_C20_errBurst: more processing errors than the 100-slot error buffer holds while the
+// consumer is late: each one is still reported exactly once, in order, and no frame is skipped.
+func VerifH_C20_errBurst() {
+	K := verifParam("K", 150)
+	good := int(ndU8("goodFrame")) // one solver-chosen frame that processes fine
+	verifAssume(good < K)
+	pr := &c20BurstProc{fail: make([]bool, K)}
+	for i := range pr.fail {
+		pr.fail[i] = i != good
+	}
+	rd := &c20BurstReader{K: K}
+	ctx, cancel := context.WithCancel(context.Background())
+	defer cancel()
+	errc := NewReceiver(rd, pr).ReceivePackets(ctx)
+	time.Sleep(time.Millisecond) // the consumer is late: the receiver has filled the buffer and waits
+	n, next := 0, 0
+	for e := range errc {
+		if next == good {
+			next++
+		}
+		ce, ok := e.(*c20Err)
+		verifAssert(ok && ce.i == next, "processing errors lost, duplicated or reordered when more than 100 were pending")
+		next++
+		n++
+	}
+	verifAssert(n == K-1, "not every processing error was reported exactly once")
+	verifAssert(pr.seen == K, "not every frame read was processed")
+	verifCover("done")
 }
